@@ -119,6 +119,31 @@ func loadBaseline(id string) (map[string]bool, map[string]bool) {
 	return m, u
 }
 
+// accepted.json: contract-kind obligations that are undecided on the unchanged tree because the proof is out of the
+// engine's reach (not because the code is wrong); each entry is a name substring with the reason. They are listed in
+// evidence and never claimed. Genuine defects go to known_findings.json instead.
+type acceptedEntry struct {
+	Match  string `json:"match"`
+	Reason string `json:"reason"`
+}
+
+var acceptedCache map[string][]acceptedEntry
+
+func acceptedIncomplete(id, name string) bool {
+	if acceptedCache == nil {
+		acceptedCache = map[string][]acceptedEntry{}
+		if b, err := os.ReadFile(filepath.Join(verifDir(), "baseline", "accepted.json")); err == nil {
+			json.Unmarshal(b, &acceptedCache)
+		}
+	}
+	for _, a := range acceptedCache[id] {
+		if strings.Contains(name, a.Match) {
+			return true
+		}
+	}
+	return false
+}
+
 var contractKinds = map[string]bool{"post": true, "pre": true, "inv-init": true, "inv-pres": true, "dec": true, "schema": true, "attr": true,
 	"own": true, "rg": true, "rank": true, "rankq": true, "cost": true, "crash": true, "frame": true, "reads": true, "lemma": true, "struct": true}
 
@@ -180,10 +205,27 @@ func cmdCheck(args []string) int {
 		return 0
 	}
 	known := loadKnown()
+	knownBy := map[string]knownFinding{}
+	for _, k := range known.Findings {
+		if k.Property == id {
+			knownBy[k.Obligation] = k
+		}
+	}
 	base, baseUndecided := loadBaseline(id)
 	if !*writeBaseline && tier.Name == "quick" {
 		// obligations that were already undecided on the unchanged tree are not claimed: no model search for them
-		tier.Skip = func(o *Obligation) bool { return baseUndecided[o.Name] }
+		tier.Skip = func(o *Obligation) bool {
+			if _, isKnown := knownBy[o.Name]; isKnown {
+				return true
+			}
+			if _, isKnown := knownBy[baseName(o.Name)]; isKnown && o.Kind == "schema" {
+				return true // listed genuine defect: reported as KNOWN-FINDING, re-attempted only in the thorough tier
+			}
+			if contractKinds[o.Kind] {
+				return acceptedIncomplete(id, o.Name)
+			}
+			return baseUndecided[o.Name]
+		}
 	}
 	if *writeBaseline {
 		tier.NoModels = true
@@ -202,12 +244,6 @@ func cmdCheck(args []string) int {
 		}
 	}
 	cwg.Wait()
-	knownBy := map[string]knownFinding{}
-	for _, k := range known.Findings {
-		if k.Property == id {
-			knownBy[k.Obligation] = k
-		}
-	}
 	var violations []string
 	claimed, discharged, undecided, knownHit := 0, 0, 0, 0
 	var undecidedList, knownList []string
@@ -222,6 +258,13 @@ func cmdCheck(args []string) int {
 		o *Obligation
 	}
 	var failing []failRec
+	// name-shift ambiguity: obligations are named kind/text#ordinal; when the unchanged tree already had an undecided
+	// obligation with the same kind/text, an edit that inserts or removes a sibling can move an undecided instance
+	// onto a baseline name. Such a failure is reported only if its counter-model replays as a panic.
+	undecidedSiblings := map[string]bool{}
+	for n := range baseUndecided {
+		undecidedSiblings[baseName(n)] = true
+	}
 	for _, r := range run.Results {
 		solverSecs += r.SolverSecs
 		if r.frame != nil && len(r.Obls) > 0 && !r.CoverOK && r.CoverAnswer != "no-return" {
@@ -233,7 +276,7 @@ func cmdCheck(args []string) int {
 			k[0]++
 			// claimed: in the baseline, or generated from a contract/schema clause - unless that obligation was already
 			// undecided on the unchanged tree when the baseline was taken (proof incompleteness, listed and unclaimed)
-			isClaimed := base[o.Name] || (contractKinds[o.Kind] && !baseUndecided[o.Name])
+			isClaimed := base[o.Name] || (contractKinds[o.Kind] && !acceptedIncomplete(id, o.Name))
 			if o.Answer == "unsat" {
 				k[1]++
 				byKind[o.Kind] = k
@@ -248,7 +291,12 @@ func cmdCheck(args []string) int {
 				continue
 			}
 			byKind[o.Kind] = k
-			if kf, ok := knownBy[o.Name]; ok {
+			kf, ok := knownBy[o.Name]
+			if !ok && o.Kind == "schema" {
+				// a schema instance is identified by function + schema(T.f); the #ordinal only numbers the return paths
+				kf, ok = knownBy[baseName(o.Name)]
+			}
+			if ok {
 				knownHit++
 				knownList = append(knownList, o.Name)
 				fmt.Printf("KNOWN-FINDING: property=%s %s witness: %s\n", id, o.Name, kf.Witness)
@@ -274,6 +322,19 @@ func cmdCheck(args []string) int {
 					fmt.Printf("UNDECIDED %s %s [%s] %s\n", o.Kind, o.Name, o.Answer, o.Pos)
 				}
 				continue
+			}
+			if !contractKinds[o.Kind] && undecidedSiblings[baseName(o.Name)] && !*writeBaseline {
+				confirmed := false
+				if o.Model != "" && r.frame != nil {
+					if spec := genericReplay(e, r, o); spec != nil {
+						_, confirmed = runReplay(e, spec)
+					}
+				}
+				if !confirmed {
+					undecided++
+					undecidedList = append(undecidedList, o.Name+" ["+o.Answer+", ambiguous ordinal]")
+					continue
+				}
 			}
 			claimed++
 			if !*writeBaseline {
@@ -347,7 +408,7 @@ func cmdCheck(args []string) int {
 			for _, o := range r.Obls {
 				if o.Answer == "unsat" {
 					names = append(names, o.Name)
-				} else {
+				} else if !contractKinds[o.Kind] {
 					und = append(und, o.Name)
 				}
 			}
@@ -419,6 +480,15 @@ func cmdCheck(args []string) int {
 		return 1
 	}
 	return 0
+}
+
+func baseName(n string) string {
+	if i := strings.LastIndex(n, "#"); i > 0 {
+		if _, err := strconv.Atoi(n[i+1:]); err == nil {
+			return n[:i]
+		}
+	}
+	return n
 }
 
 // retryObligation: all solvers, thorough timeout, three seeds; any unsat discharges.
